@@ -1,6 +1,7 @@
 // C05: buffers keep size, content, terminator and exclusive ownership over any history.
 #include <string_theory/char_buffer>
 
+#include <algorithm>
 #include <string>
 #include <string_view>
 #include <cstdarg>
@@ -12,17 +13,65 @@ using verif::Case;
 namespace va = verif::alloc;
 
 const verif::Info verif_info = {
-    "C05", 400,
+    "C05", 480,
     "histories of 1..80 operations (default/ptr+len/count+fill/copy/move construction, copy and move assignment incl. self-assignment, "
     "allocate(n)+write, allocate(n,fill), clear, destroy, reads) over a pool of 6 individually heap-placed ST::buffer<T>, T in "
     "{char,wchar_t,char16_t,char32_t}; lengths from {0,1,L-2,L-1,L,L+1,2L,100} with L the observed in-object limit. Oracle: per-slot "
     "std::basic_string model; after every step every live buffer has the model's size and elements, a NUL terminator, storage inside its own "
     "footprint (always when size<L) or an exclusively owned live heap block of >= size+1 elements, no invalid/double free; at the end nothing is "
     "left allocated. Moved-from objects must satisfy the same for the value they report. Non-trivial: a move or a cross-limit assignment "
-    "followed by at least one later step that touches a participant.",
-    false, "exploration"};
+    "followed by at least one later step that touches a participant. "
+    "Extended histories (leading byte 4..19; 0..3 keep the original operation table) add: construction from null_t, (nullptr,0), the "
+    "ST_CHAR/WCHAR/UTF16/UTF32_LITERAL macros and the _stbuf literal operators (15 literals of length 0..43 around both limits, with embedded "
+    "and trailing NULs: size must be the literal's length), assignment from null_t and from temporaries, (count,fill) and allocate(n,fill) with "
+    "every fill value incl. 0, allocate(n) followed by partial writes, writes through at()/operator[]/front()/back()/begin()/end()/rbegin()/rend(), "
+    "std::swap (incl. with itself), the chain a=move(b); b=a; a=a; b=move(b), 3..6-step shrink/grow histories across the limit, "
+    "compare / compare_n / static compare / == / != / < / null_t comparisons between pool members and against a freshly built buffer of the same "
+    "elements (equality depends on current contents only), view(start,length), all eight iterator pairs, c_str(substitute), and a compound step "
+    "that rebuilds a slot in one of 18 pre-states (fresh, short, long, limit-1, limit, long-after-short by copy/move assignment, short-after-long, "
+    "cleared, moved-from by constructor/assignment, copy of a long value, self-assigned, shrunk by allocate, three-step, literal) and applies one "
+    "of 16 actions to it. The enumerator runs every (type, pre-state, action, length class, fill) combination, every chain over 8x8 length "
+    "classes and every 3-step shrink/grow method triple as directed cases.",
+    true, "exploration"};
 
 namespace {
+
+using namespace ST::literals;
+
+// ---------------------------------------------------------------------------------------------------------------------
+// literal table: every entry is built by the library macro and by the literal operator; the expected value is the
+// narrow spelling, element by element, sizeof-1 elements long (embedded NULs count)
+#define C05_LITS(X) \
+    X("") X("a") X("ab\0cd") X("\0") X("\0\0z") X("0123456789A") X("0123456789AB") X("0123456789ABC") X("0123456789ABCDE") \
+    X("0123456789ABCDEF") X("0123456789ABCDEFG") X("0123456\0zzABCDE") X("0123456789\0zCDEF") X("The quick brown fox\0jumps over the lazy dog") \
+    X("trailing nul\0")
+
+template <class T> struct LitEntry { ST::buffer<T> (*macro)(); ST::buffer<T> (*udl)(); ST::buffer<T> (*udl8)(); const char *narrow; size_t len; };
+template <class T> struct Lits;
+template <> struct Lits<char> { static const LitEntry<char> tab[]; };
+template <> struct Lits<wchar_t> { static const LitEntry<wchar_t> tab[]; };
+template <> struct Lits<char16_t> { static const LitEntry<char16_t> tab[]; };
+template <> struct Lits<char32_t> { static const LitEntry<char32_t> tab[]; };
+#define X(s) { +[]() -> ST::char_buffer { return ST_CHAR_LITERAL(s); }, +[]() -> ST::char_buffer { return s##_stbuf; }, +[]() -> ST::char_buffer { return u8##s##_stbuf; }, s, sizeof(s) - 1 },
+const LitEntry<char> Lits<char>::tab[] = { C05_LITS(X) };
+#undef X
+#define X(s) { +[]() -> ST::wchar_buffer { return ST_WCHAR_LITERAL(s); }, +[]() -> ST::wchar_buffer { return L##s##_stbuf; }, nullptr, s, sizeof(s) - 1 },
+const LitEntry<wchar_t> Lits<wchar_t>::tab[] = { C05_LITS(X) };
+#undef X
+#define X(s) { +[]() -> ST::utf16_buffer { return ST_UTF16_LITERAL(s); }, +[]() -> ST::utf16_buffer { return u##s##_stbuf; }, nullptr, s, sizeof(s) - 1 },
+const LitEntry<char16_t> Lits<char16_t>::tab[] = { C05_LITS(X) };
+#undef X
+#define X(s) { +[]() -> ST::utf32_buffer { return ST_UTF32_LITERAL(s); }, +[]() -> ST::utf32_buffer { return U##s##_stbuf; }, nullptr, s, sizeof(s) - 1 },
+const LitEntry<char32_t> Lits<char32_t>::tab[] = { C05_LITS(X) };
+#undef X
+#define X(s) +1
+enum { NLIT = 0 C05_LITS(X) };
+#undef X
+
+inline int sgn(int v) { return v < 0 ? -1 : v > 0 ? 1 : 0; }
+void lab(Case &c, const char *l) { for (int i = 0; i < c.nlabels; i++) if (c.labels[i] == l || !strcmp(c.labels[i], l)) return; c.label(l); }
+
+enum { OPS_LEGACY = 18, OPS_EXT = 40, NKIND = 18, NACT = 16 };
 
 template <class T> struct Pool {
     typedef ST::buffer<T> B;
@@ -32,6 +81,7 @@ template <class T> struct Pool {
     Slot s[NSLOT];
     std::string log;
     bool want_log;
+    bool ext = false;
     size_t L = 0;    // observed limit: smallest length whose storage leaves the object
 
     B *place(int i) { s[i].raw = ::malloc(sizeof(B)); memset(s[i].raw, 0xEE, sizeof(B)); return static_cast<B *>(s[i].raw); }
@@ -88,10 +138,7 @@ template <class T> struct Pool {
     // a moved-from (or self-moved) object has an unspecified but valid value: adopt what it reports
     void adopt(int i) { const B &b = *s[i].obj; s[i].model.assign(b.data(), b.size()); }
 
-    M value(verif::Reader &r) {
-        const size_t lens[] = {0, 1, L >= 2 ? L - 2 : 0, L >= 1 ? L - 1 : 0, L, L + 1, 2 * L, 100};
-        size_t n = r.pick(lens);
-        uint8_t style = r.u8();
+    static M content(size_t n, uint8_t style) {
         M m;
         for (size_t k = 0; k < n; k++) {
             unsigned v = 'a' + ((style + k) % 26);
@@ -101,10 +148,184 @@ template <class T> struct Pool {
         }
         return m;
     }
+    M value(verif::Reader &r) {
+        const size_t lens[] = {0, 1, L >= 2 ? L - 2 : 0, L >= 1 ? L - 1 : 0, L, L + 1, 2 * L, 100};
+        size_t n = r.pick(lens);
+        uint8_t style = r.u8();
+        return content(n, style);
+    }
+    M short_value(verif::Reader &r) { const size_t lens[] = {1, L >= 1 ? L - 1 : 0, L >= 2 ? L - 2 : 0, L / 2}; size_t n = r.pick(lens); return content(n, r.u8()); }
+    M long_value(verif::Reader &r) { const size_t lens[] = {L, L + 1, 100, 2 * L}; size_t n = r.pick(lens); return content(n, r.u8()); }
+    // every element value: 0 first (zeros decode to the simplest choice), a few extremes, then any byte value
+    static T fillv(verif::Reader &r) {
+        static const uint32_t tab[8] = {0, 1, 'x', 0x7F, 0x80, 0xFF, 0xFFFF, 0xFFFFFFFFu};
+        uint8_t v = r.u8();
+        return v < 8 ? (T)tab[v] : (T)v;
+    }
 
     void note(const char *fmt, ...) __attribute__((format(printf, 2, 3))) {
         if (!want_log) return;
         char b[160]; va_list ap; va_start(ap, fmt); vsnprintf(b, sizeof b, fmt, ap); va_end(ap); log += b;
+    }
+
+    // ---- helpers for the extended operations ------------------------------------------------------------------------
+    void make(int i, const M &m) {      // slot i must be free
+        verif::Exact<T> src(m.data(), m.size());
+        { B *q = place(i); va::LibScope l; s[i].obj = new (q) B(src.data(), src.size()); }
+        s[i].model = m;
+    }
+    void copy_assign_value(int i, const M &m) {     // *slot = (temporary built from m), through an lvalue
+        verif::Exact<T> src(m.data(), m.size());
+        { va::LibScope l; B tmp(src.data(), src.size()); *s[i].obj = tmp; }
+        s[i].model = m;
+    }
+    void move_assign_value(int i, const M &m) {
+        verif::Exact<T> src(m.data(), m.size());
+        { va::LibScope l; B tmp(src.data(), src.size()); *s[i].obj = std::move(tmp); }
+        s[i].model = m;
+    }
+    void allocate_write(int i, const M &m) {
+        { va::LibScope l; s[i].obj->allocate(m.size()); }
+        if (s[i].obj->size() == m.size()) for (size_t e = 0; e < m.size(); e++) s[i].obj->data()[e] = m[e];
+        s[i].model = m;
+    }
+    static M lit_model(const LitEntry<T> &e) { M m; for (size_t k = 0; k < e.len; k++) m.push_back((T)(unsigned char)e.narrow[k]); return m; }
+    int free_slot() const { for (int i = 0; i < NSLOT; i++) if (!s[i].obj) return i; return -1; }
+
+    // write element k of slot i through one of the non-const accessors
+    void poke(int i, size_t k, T v, int how) {
+        B &b = *s[i].obj; size_t n = b.size();
+        va::LibScope l;
+        switch (how & 7) {
+        case 0: b.at(k) = v; break;
+        case 1: b[k] = v; break;
+        case 2: *(b.begin() + k) = v; break;
+        case 3: *(b.end() - (n - k)) = v; break;
+        case 4: *(b.rbegin() + (n - 1 - k)) = v; break;
+        case 5: *(b.rend() - 1 - k) = v; break;
+        case 6: if (k == 0) b.front() = v; else b.data()[k] = v; break;
+        default: if (k == n - 1) b.back() = v; else b.at(k) = v; break;
+        }
+        s[i].model[k] = v;
+    }
+
+    // rebuild slot i in pre-state `kind`; every intermediate state is checked.  Returns "" or the violation.
+    static const char *kind_name(int kind) {
+        static const char *const names[NKIND] = {"fresh", "short", "long", "limit-1", "limit", "long-after-short(copy=)", "short-after-long(copy=)", "cleared-after-long",
+            "cleared-after-short", "moved-from(ctor,long)", "moved-from(=,short)", "copy-of-long", "self-assigned-long", "shrunk-by-allocate", "long-after-short(move=)",
+            "long-short-long(copy=)", "moved-from(=,long)", "literal"};
+        return names[kind];
+    }
+    static bool kind_crosses(int kind) { return kind == 5 || kind == 6 || kind == 9 || kind == 10 || kind == 12 || kind == 13 || kind == 14 || kind == 15 || kind == 16; }
+    std::string prestate(int i, int kind, const M &sh, const M &lg, unsigned litsel) {
+        destroy(i);
+        std::string why;
+        #define C05_STEP(what) do { why = check(what); if (!why.empty()) return why; } while (0)
+        switch (kind) {
+        case 0: { B *q = place(i); va::LibScope l; s[i].obj = new (q) B(); } s[i].model.clear(); break;
+        case 1: make(i, sh); break;
+        case 2: make(i, lg); break;
+        case 3: make(i, content(L >= 1 ? L - 1 : 0, (uint8_t)sh.size())); break;
+        case 4: make(i, content(L, (uint8_t)lg.size())); break;
+        case 5: make(i, sh); C05_STEP("pre-state step 1"); copy_assign_value(i, lg); break;
+        case 6: make(i, lg); C05_STEP("pre-state step 1"); copy_assign_value(i, sh); break;
+        case 7: make(i, lg); C05_STEP("pre-state step 1"); { va::LibScope l; s[i].obj->clear(); } s[i].model.clear(); break;
+        case 8: make(i, sh); C05_STEP("pre-state step 1"); { va::LibScope l; s[i].obj->clear(); } s[i].model.clear(); break;
+        case 9: make(i, lg); C05_STEP("pre-state step 1"); { va::LibScope l; B t(std::move(*s[i].obj)); } adopt(i); break;
+        case 10: make(i, sh); C05_STEP("pre-state step 1"); { va::LibScope l; B t; t = std::move(*s[i].obj); } adopt(i); break;
+        case 11: { verif::Exact<T> src(lg.data(), lg.size()); B *q = place(i); va::LibScope l; B tmp(src.data(), src.size()); s[i].obj = new (q) B(tmp); } s[i].model = lg; break;
+        case 12: make(i, lg); C05_STEP("pre-state step 1"); { va::LibScope l; B &b = *s[i].obj; b = b; } C05_STEP("pre-state step 2 (self copy assignment)");
+                 { va::LibScope l; B &b = *s[i].obj; b = std::move(b); } adopt(i); break;
+        case 13: make(i, lg); C05_STEP("pre-state step 1"); allocate_write(i, sh); break;
+        case 14: make(i, sh); C05_STEP("pre-state step 1"); move_assign_value(i, lg); break;
+        case 15: make(i, lg); C05_STEP("pre-state step 1"); copy_assign_value(i, sh); C05_STEP("pre-state step 2"); copy_assign_value(i, content(lg.size() + 1, (uint8_t)(sh.size() + 7))); break;
+        case 16: make(i, lg); C05_STEP("pre-state step 1"); { verif::Exact<T> src(sh.data(), sh.size()); va::LibScope l; B t(src.data(), src.size()); t = std::move(*s[i].obj); } adopt(i); break;
+        default: { const LitEntry<T> &e = Lits<T>::tab[litsel % NLIT]; { B *q = place(i); va::LibScope l; s[i].obj = new (q) B((litsel / NLIT) & 1 ? e.udl() : e.macro()); } s[i].model = lit_model(e); break; }
+        }
+        #undef C05_STEP
+        return check("after building the pre-state");
+    }
+
+    // comparisons of slot i with slot j; returns "" or the violation
+    std::string compare_ops(int i, int j, size_t nsel) {
+        const B &a = *s[i].obj, &b = *s[j].obj; const M &ma = s[i].model, &mb = s[j].model;
+        char msg[200];
+        va::LibScope l;
+        bool eq = ma == mb;
+        if ((a == b) != eq || (a != b) != !eq || (b == a) != eq) { snprintf(msg, sizeof msg, "operator==/!= of slots %d and %d say %s although their contents are %s", i, j, eq ? "different" : "equal", eq ? "equal" : "different"); return msg; }
+        int want = sgn(ma.compare(mb));
+        if (sgn(a.compare(b)) != want) { snprintf(msg, sizeof msg, "slot %d .compare(slot %d) has sign %d, contents compare %d", i, j, sgn(a.compare(b)), want); return msg; }
+        if ((a < b) != (want < 0)) { snprintf(msg, sizeof msg, "operator< of slots %d and %d disagrees with their contents", i, j); return msg; }
+        if (sgn(B::compare(a.data(), a.size(), b.data(), b.size())) != want) return "static compare(p,n,q,m) disagrees with the contents of slots " + verif::num(i) + "," + verif::num(j);
+        M mbz(mb.c_str());   // what a const T* overload can see
+        if (sgn(a.compare(b.c_str())) != sgn(ma.compare(mbz))) return "compare(const T*) disagrees with the contents of slots " + verif::num(i) + "," + verif::num(j);
+        size_t top = std::max(ma.size(), mb.size()) + 1, n = nsel % (top + 1);
+        int wn = sgn(ma.substr(0, n).compare(mb.substr(0, n)));
+        if (sgn(a.compare_n(b, n)) != wn) return "compare_n(buffer," + verif::unum(n) + ") disagrees with the contents of slots " + verif::num(i) + "," + verif::num(j);
+        if (sgn(B::compare(a.data(), a.size(), b.data(), b.size(), n)) != wn) return "static compare(p,n,q,m,max) disagrees with the contents of slots " + verif::num(i) + "," + verif::num(j);
+        if (sgn(a.compare_n(b.c_str(), n)) != sgn(ma.substr(0, n).compare(mbz.substr(0, n)))) return "compare_n(const T*,n) disagrees with the contents of slots " + verif::num(i) + "," + verif::num(j);
+        if ((a == ST::null_t()) != ma.empty() || (a != ST::null_t()) != !ma.empty() || (ST::null_t() == a) != ma.empty() || (ST::null_t() != a) != !ma.empty()) return "comparison with null_t disagrees with empty() in slot " + verif::num(i);
+        return fresh_equal(i);
+    }
+    // equality must depend on the current contents only: a freshly built buffer with the same elements is equal, one that differs in one element is not
+    std::string fresh_equal(int i) {
+        const B &a = *s[i].obj; const M &ma = s[i].model;
+        verif::Exact<T> src(ma.data(), ma.size());
+        va::LibScope l;
+        B same(src.data(), src.size());
+        if (!(a == same) || (a != same) || !(same == a) || a.compare(same) != 0 || same.compare(a) != 0 || (a < same) || (same < a))
+            return "slot " + verif::num(i) + " does not compare equal to a freshly built buffer holding the same " + verif::unum(ma.size()) + " elements";
+        if (!ma.empty()) {
+            M md = ma; size_t k = md.size() - 1; md[k] = (T)(md[k] ^ 1);
+            verif::Exact<T> sd(md.data(), md.size());
+            B diff(sd.data(), sd.size());
+            if ((a == diff) || !(a != diff) || a.compare(diff) == 0) return "slot " + verif::num(i) + " compares equal to a buffer that differs in its last element";
+            B shorter(src.data(), src.size() - 1);
+            if ((a == shorter) || a.compare(shorter) <= 0 || shorter.compare(a) >= 0) return "slot " + verif::num(i) + " does not compare greater than its own proper prefix";
+        }
+        return std::string();
+    }
+
+    // extended reads of slot i
+    std::string reads_ext(int i, size_t sel1, size_t sel2) {
+        B &b = *s[i].obj; const B &cb = b; const M &m = s[i].model;
+        size_t n = m.size();
+        std::string at = " in slot " + verif::num(i);
+        va::LibScope l;
+        if (cb.size() != n) return std::string();   // reported by check()
+        size_t start = sel1 % (n + 1), len = sel2 % (n - start + 2);
+        bool autolen = len == n - start + 1;
+        std::basic_string_view<T> v = autolen ? cb.view(start) : cb.view(start, len);
+        size_t wlen = autolen ? n - start : len;
+        if (v.data() != cb.data() + start || v.size() != wlen) return "view(" + verif::unum(start) + "," + (autolen ? std::string("auto") : verif::unum(len)) + ") does not denote that range of the buffer" + at;
+        if (M(v) != m.substr(start, wlen)) return "view(start,length) content differs from the stored value" + at;
+        if (M(cb.view()) != m) return "view() differs from the stored value" + at;
+        if ((size_t)(cb.end() - cb.begin()) != n || (size_t)(cb.cend() - cb.cbegin()) != n || (size_t)(b.end() - b.begin()) != n) return "iterator range != size" + at;
+        if ((size_t)(cb.rend() - cb.rbegin()) != n || (size_t)(cb.crend() - cb.crbegin()) != n || (size_t)(b.rend() - b.rbegin()) != n) return "reverse iterator range != size" + at;
+        if (cb.begin() != cb.data() || cb.cbegin() != cb.data() || b.begin() != b.data()) return "begin() != data()" + at;
+        if (!std::equal(cb.begin(), cb.end(), m.begin()) || !std::equal(cb.cbegin(), cb.cend(), m.begin()) || !std::equal(b.begin(), b.end(), m.begin())) return "forward iteration differs from the stored value" + at;
+        if (!std::equal(cb.rbegin(), cb.rend(), m.rbegin()) || !std::equal(cb.crbegin(), cb.crend(), m.rbegin()) || !std::equal(b.rbegin(), b.rend(), m.rbegin())) return "reverse iteration differs from the stored value" + at;
+        if (n) {
+            size_t k = sel1 % n;
+            if (&cb.at(k) != cb.data() + k || &cb[k] != cb.data() + k || &b.at(k) != b.data() + k || &b[k] != b.data() + k) return "at()/operator[] do not refer to the buffer's own element" + at;
+            if (cb.at(k) != m[k] || cb[k] != m[k]) return "at()/operator[] differ from the stored value" + at;
+            if (&cb.front() != cb.data() || &b.front() != b.data() || &cb.back() != cb.data() + n - 1 || &b.back() != b.data() + n - 1) return "front()/back() do not refer to the first/last element" + at;
+        } else {
+            if (&cb.front() != cb.data() || &cb.back() != cb.data() || cb.front() != 0 || cb.back() != 0) return "front()/back() of an empty buffer are not its terminator" + at;
+        }
+        if (cb[n] != 0) return "operator[](size()) is not the terminator" + at;
+        const size_t bad[] = {n, n + 1, n + 1000, (size_t)-1};
+        for (size_t x : bad) {
+            bool t1 = false, t2 = false;
+            try { (void)cb.at(x); } catch (const std::out_of_range &) { t1 = true; }
+            try { (void)b.at(x); } catch (const std::out_of_range &) { t2 = true; }
+            if (!t1 || !t2) return "at(" + verif::unum(x) + ") did not throw std::out_of_range (size " + verif::unum(n) + ")" + at;
+        }
+        static const T sub[2] = {(T)'?', 0};
+        if (cb.c_str(sub) != (n ? cb.data() : sub)) return "c_str(substitute) wrong" + at;
+        if (cb.to_std_string() != m) return "to_std_string() differs from the stored value" + at;
+        if (B::strlen(cb.c_str()) != std::char_traits<T>::length(m.c_str()) || B::strlen(sub) != 1) return "strlen disagrees with the stored value" + at;
+        return std::string();
     }
 
     // returns "" or the violation
@@ -114,8 +335,9 @@ template <class T> struct Pool {
         size_t nops = 1 + r.range(0, 79);
         bool pending = false;      // a move / cross-limit assignment happened; next touch of a participant makes the case non-trivial
         for (size_t k = 0; k < nops; k++) {
-            int op = (int)r.range(0, 17), i = (int)r.idx(NSLOT), j = (int)r.idx(NSLOT);
+            int op = (int)r.range(0, (ext ? OPS_EXT : OPS_LEGACY) - 1), i = (int)r.idx(NSLOT), j = (int)r.idx(NSLOT);
             bool touches = false;
+            std::string w;
             try {
                 switch (op) {
                 case 0: if (s[i].obj) continue; { B *q = place(i); va::LibScope l; s[i].obj = new (q) B(); } s[i].model.clear(); note("%d=B(); ", i); break;
@@ -126,19 +348,19 @@ template <class T> struct Pool {
                 case 4: if (s[i].obj || !s[j].obj) continue; { B *q = place(i); va::LibScope l; s[i].obj = new (q) B(*s[j].obj); } s[i].model = s[j].model;
                           touches = s[j].touched_by_move; note("%d=B(copy %d); ", i, j); break;
                 case 5: case 6: if (s[i].obj || !s[j].obj) continue; { B *q = place(i); va::LibScope l; s[i].obj = new (q) B(std::move(*s[j].obj)); }
-                          s[i].model = s[j].model; note("%d=B(move %d); ", i, j); adopt(j); s[i].touched_by_move = s[j].touched_by_move = true; pending = true; c.label("move-construct"); break;
+                          s[i].model = s[j].model; note("%d=B(move %d); ", i, j); adopt(j); s[i].touched_by_move = s[j].touched_by_move = true; pending = true; lab(c, "move-construct"); break;
                 case 7: case 8: if (!s[i].obj || !s[j].obj) continue; {
                           bool cross = (s[i].model.size() < L) != (s[j].model.size() < L);
                           touches = s[i].touched_by_move || s[j].touched_by_move;
                           { va::LibScope l; *s[i].obj = *s[j].obj; } s[i].model = s[j].model;
-                          if (i == j) c.label("self-copy-assign"); else if (cross) { c.label("cross-limit-copy-assign"); pending = true; s[i].touched_by_move = true; }
+                          if (i == j) lab(c, "self-copy-assign"); else if (cross) { lab(c, "cross-limit-copy-assign"); pending = true; s[i].touched_by_move = true; }
                           note("%d=copy %d; ", i, j); break; }
                 case 9: case 10: case 11: if (!s[i].obj || !s[j].obj) continue; {
                           M mj = s[j].model; touches = s[i].touched_by_move || s[j].touched_by_move;
                           { va::LibScope l; *s[i].obj = std::move(*s[j].obj); }
                           note("%d=move %d; ", i, j);
-                          if (i != j) { s[i].model = mj; adopt(j); c.label(mj.size() < L ? "move-assign-short-source" : "move-assign-long-source"); }
-                          else { adopt(i); c.label("self-move-assign"); }
+                          if (i != j) { s[i].model = mj; adopt(j); lab(c, mj.size() < L ? "move-assign-short-source" : "move-assign-long-source"); }
+                          else { adopt(i); lab(c, "self-move-assign"); }
                           s[i].touched_by_move = s[j].touched_by_move = true; pending = true; break; }
                 case 12: if (!s[i].obj) continue; { M m = value(r); touches = s[i].touched_by_move;
                           { va::LibScope l; s[i].obj->allocate(m.size()); }
@@ -149,7 +371,7 @@ template <class T> struct Pool {
                           { va::LibScope l; s[i].obj->allocate(n, f); } s[i].model = M(n, f); note("%d.allocate(%zu,fill); ", i, n); break; }
                 case 14: if (!s[i].obj) continue; touches = s[i].touched_by_move; { va::LibScope l; s[i].obj->clear(); } s[i].model.clear(); note("%d.clear(); ", i); break;
                 case 15: if (!s[i].obj) continue; touches = s[i].touched_by_move; destroy(i); s[i].touched_by_move = false; note("~%d; ", i); break;
-                default: {   // reads
+                case 16: case 17: {   // reads
                     if (!s[i].obj) continue;
                     touches = s[i].touched_by_move;
                     const B &b = *s[i].obj; const M &m = s[i].model;
@@ -171,6 +393,107 @@ template <class T> struct Pool {
                     if (B::strlen(b.c_str()) != std::char_traits<T>::length(m.c_str())) return "strlen(c_str()) disagrees with the stored value in slot " + verif::num(i);
                     note("read %d; ", i);
                     break; }
+                // ------------------------------------------------------------------------------------------ extended table
+                case 18: if (s[i].obj) continue; { B *q = place(i); va::LibScope l; s[i].obj = new (q) B(ST::null_t()); } s[i].model.clear(); lab(c, "construct(null_t)"); note("%d=B(null); ", i); break;
+                case 19: if (s[i].obj) continue; { B *q = place(i); va::LibScope l; s[i].obj = new (q) B(nullptr, 0); } s[i].model.clear(); lab(c, "construct(nullptr,0)"); note("%d=B(nullptr,0); ", i); break;
+                case 20: case 21: {   // literal: construct into a free slot, or move-assign the temporary into a live one
+                    unsigned sel = (unsigned)r.range(0, 3 * NLIT - 1); const LitEntry<T> &e = Lits<T>::tab[sel % NLIT]; unsigned form = sel / NLIT;
+                    ST::buffer<T> (*fn)() = form == 0 ? e.macro : (form == 2 && e.udl8) ? e.udl8 : e.udl;
+                    touches = s[i].touched_by_move;
+                    if (!s[i].obj) { B *q = place(i); va::LibScope l; s[i].obj = new (q) B(fn()); }
+                    else { va::LibScope l; *s[i].obj = fn(); }
+                    s[i].model = lit_model(e);
+                    lab(c, form == 0 ? "literal-macro" : "literal-operator"); if (memchr(e.narrow, 0, e.len)) lab(c, "literal-with-NUL");
+                    note("%d=%s#%u(len %zu); ", i, form == 0 ? "ST_xxx_LITERAL" : "_stbuf", sel % NLIT, e.len); break; }
+                case 22: if (!s[i].obj) continue; touches = s[i].touched_by_move; { va::LibScope l; *s[i].obj = ST::null_t(); } s[i].model.clear(); lab(c, "assign(null_t)"); note("%d=null; ", i); break;
+                case 23: case 24: { if (!s[i].obj || !s[j].obj) continue; touches = s[i].touched_by_move || s[j].touched_by_move; size_t nsel = r.u8();
+                          w = compare_ops(i, j, nsel); if (!w.empty()) return "step " + verif::unum(k) + ": " + w; lab(c, "compare/=="); note("cmp %d,%d; ", i, j); break; }
+                case 25: case 26: { if (!s[i].obj) continue; touches = s[i].touched_by_move; size_t n = s[i].model.size(); size_t ksel = r.u8(); T v = fillv(r); int how = (int)r.idx(8);
+                          if (n) { poke(i, ksel % n, v, how); lab(c, "write-through-accessor"); note("%d.poke(%zu,how %d); ", i, ksel % n, how); } break; }
+                case 27: { if (!s[i].obj || !s[j].obj) continue; touches = s[i].touched_by_move || s[j].touched_by_move;
+                          { va::LibScope l; std::swap(*s[i].obj, *s[j].obj); }
+                          if (i != j) std::swap(s[i].model, s[j].model);
+                          s[i].touched_by_move = s[j].touched_by_move = true; pending = true; lab(c, i == j ? "self-swap" : "std::swap"); note("swap %d,%d; ", i, j); break; }
+                case 28: {  // a = std::move(b); b = a; a = a; b = std::move(b)
+                    if (!s[i].obj || !s[j].obj) continue;
+                    B &a = *s[i].obj, &b = *s[j].obj; M mb = s[j].model;
+                    { va::LibScope l; a = std::move(b); } if (i != j) { s[i].model = mb; adopt(j); } else adopt(i);
+                    w = check("chain step a=move(b)"); if (!w.empty()) return "step " + verif::unum(k) + " " + w;
+                    { va::LibScope l; b = a; } s[j].model = s[i].model;
+                    w = check("chain step b=a"); if (!w.empty()) return "step " + verif::unum(k) + " " + w;
+                    { va::LibScope l; B &a2 = a; a = a2; }
+                    w = check("chain step a=a"); if (!w.empty()) return "step " + verif::unum(k) + " " + w;
+                    { va::LibScope l; B &b2 = b; b = std::move(b2); } adopt(j);
+                    s[i].touched_by_move = s[j].touched_by_move = true; pending = true; c.nontrivial = true; lab(c, "chain a=move(b);b=a;a=a;b=move(b)"); note("chain %d,%d; ", i, j); break; }
+                case 29: case 30: {   // pre-state + action
+                    int kind = (int)r.idx(NKIND), act = (int)r.idx(NACT);
+                    M sh = short_value(r), lg = long_value(r), v = value(r); T f = fillv(r); unsigned litsel = (unsigned)(sh.size() + lg.size() + v.size());
+                    note("%d:=<%s>; ", i, kind_name(kind));
+                    w = prestate(i, kind, sh, lg, litsel); if (!w.empty()) return "step " + verif::unum(k) + " (pre-state " + kind_name(kind) + ") " + w;
+                    s[i].touched_by_move = kind_crosses(kind); if (kind_crosses(kind)) { pending = true; c.nontrivial = true; }
+                    lab(c, kind_name(kind));
+                    size_t n = v.size();
+                    switch (act) {
+                    case 0: { va::LibScope l; s[i].obj->allocate(n, f); } s[i].model = M(n, f); lab(c, f == 0 ? "allocate(n,0)" : "allocate(n,fill)"); note("%d.allocate(%zu,%X); ", i, n, (unsigned)f); break;
+                    case 1: allocate_write(i, v); note("%d.allocate(%zu)+write; ", i, n); break;
+                    case 2: { { va::LibScope l; s[i].obj->allocate(n, f); } s[i].model = M(n, f); w = check("after allocate(n,fill)"); if (!w.empty()) return "step " + verif::unum(k) + " " + w;
+                              for (size_t e = 0; e < n; e += 3) poke(i, e, v[e], (int)e); lab(c, "allocate(n,fill)+partial-writes"); note("%d.allocate(%zu,%X)+partial; ", i, n, (unsigned)f); break; }
+                    case 3: { { va::LibScope l; s[i].obj->allocate(n); } if (s[i].obj->size() != n) return "allocate(" + verif::unum(n) + ") left size " + verif::unum(s[i].obj->size());
+                              adopt(i); for (size_t e = 0; e < n; e += 2) poke(i, e, v[e], (int)e + 1); lab(c, "allocate(n)+partial-writes"); note("%d.allocate(%zu)+partial; ", i, n); break; }
+                    case 4: { va::LibScope l; s[i].obj->clear(); } s[i].model.clear(); note("%d.clear(); ", i); break;
+                    case 5: { va::LibScope l; *s[i].obj = ST::null_t(); } s[i].model.clear(); note("%d=null; ", i); break;
+                    case 6: copy_assign_value(i, v); note("%d=copy tmp(%zu); ", i, n); break;
+                    case 7: move_assign_value(i, v); note("%d=move tmp(%zu); ", i, n); break;
+                    case 8: { int t = free_slot(); if (t < 0) break; { B *q = place(t); va::LibScope l; s[t].obj = new (q) B(*s[i].obj); } s[t].model = s[i].model; note("%d=B(copy %d); ", t, i); break; }
+                    case 9: { int t = free_slot(); if (t < 0) break; { B *q = place(t); va::LibScope l; s[t].obj = new (q) B(std::move(*s[i].obj)); } s[t].model = s[i].model; adopt(i);
+                              s[t].touched_by_move = s[i].touched_by_move = true; note("%d=B(move %d); ", t, i); break; }
+                    case 10: { verif::Exact<T> src(v.data(), v.size()); M old = s[i].model; bool ok;
+                              { va::LibScope l; B tmp(src.data(), src.size()); std::swap(*s[i].obj, tmp); ok = tmp.size() == old.size() && std::equal(old.begin(), old.end(), tmp.data()) && tmp.data()[tmp.size()] == 0; }
+                              s[i].model = v; if (!ok) return "step " + verif::unum(k) + ": after std::swap the other buffer does not hold slot " + verif::num(i) + "'s former value";
+                              note("swap %d,tmp(%zu); ", i, n); break; }
+                    case 11: w = fresh_equal(i); if (!w.empty()) return "step " + verif::unum(k) + " (pre-state " + kind_name(kind) + "): " + w; note("%d==fresh; ", i); break;
+                    case 12: { va::LibScope l; B &b = *s[i].obj; *s[i].obj = b; } note("%d=copy %d; ", i, i); break;
+                    case 13: { va::LibScope l; B &b = *s[i].obj; *s[i].obj = std::move(b); } adopt(i); note("%d=move %d; ", i, i); break;
+                    case 14: w = reads_ext(i, v.size(), (size_t)(uint8_t)f); if (!w.empty()) return "step " + verif::unum(k) + " (pre-state " + kind_name(kind) + "): " + w; note("readx %d; ", i); break;
+                    default: destroy(i); s[i].touched_by_move = false; note("~%d; ", i); break;
+                    }
+                    break; }
+                case 31: case 32: {   // shrink / grow history: long, short, long, ... with a drawn method for every step
+                    size_t steps = 3 + r.idx(4);
+                    if (!s[i].obj) { B *q = place(i); va::LibScope l; s[i].obj = new (q) B(); s[i].model.clear(); }
+                    note("%d:", i);
+                    for (size_t st = 0; st < steps; st++) {
+                        bool grow = (st % 2) == 0;
+                        int method = (int)r.idx(grow ? 4 : 6);
+                        M v = grow ? long_value(r) : short_value(r);
+                        switch (method) {
+                        case 0: allocate_write(i, v); break;
+                        case 1: copy_assign_value(i, v); break;
+                        case 2: move_assign_value(i, v); break;
+                        case 3: { T f = fillv(r); { va::LibScope l; s[i].obj->allocate(v.size(), f); } s[i].model = M(v.size(), f); break; }
+                        case 4: { va::LibScope l; s[i].obj->clear(); } s[i].model.clear(); break;
+                        default: { va::LibScope l; *s[i].obj = ST::null_t(); } s[i].model.clear(); break;
+                        }
+                        note("%s%d(%zu) ", grow ? "grow" : "shrink", method, s[i].model.size());
+                        w = check(grow ? "after a grow step" : "after a shrink step"); if (!w.empty()) return "step " + verif::unum(k) + "." + verif::unum(st) + " " + w;
+                    }
+                    note("; ");
+                    s[i].touched_by_move = true; pending = true; c.nontrivial = true; lab(c, "shrink-grow-history"); break; }
+                case 33: case 34: { if (!s[i].obj) continue; touches = s[i].touched_by_move; size_t a = r.u8(), b = r.u8();
+                          w = reads_ext(i, a, b); if (!w.empty()) return "step " + verif::unum(k) + ": " + w; lab(c, "extended-reads"); note("readx %d; ", i); break; }
+                case 35: { if (!s[i].obj) continue; touches = s[i].touched_by_move; M v = value(r); size_t n = v.size();   // allocate(n) then partial writes; unwritten elements are indeterminate
+                          { va::LibScope l; s[i].obj->allocate(n); } if (s[i].obj->size() != n) return "allocate(" + verif::unum(n) + ") left size " + verif::unum(s[i].obj->size());
+                          adopt(i); int how = (int)r.idx(8); for (size_t e = 0; e < n; e += 2) poke(i, e, v[e], how + (int)e);
+                          lab(c, "allocate(n)+partial-writes"); note("%d.allocate(%zu)+partial; ", i, n); break; }
+                case 36: { if (s[i].obj) continue; size_t n = value(r).size(); T f = fillv(r);
+                          { B *q = place(i); va::LibScope l; s[i].obj = new (q) B(n, f); } s[i].model = M(n, f); lab(c, f == 0 ? "construct(n,0)" : "construct(n,any fill)"); note("%d=B(%zu,%X); ", i, n, (unsigned)f); break; }
+                case 37: case 38: { if (!s[i].obj) continue; size_t n = value(r).size(); T f = fillv(r); touches = s[i].touched_by_move;
+                          { va::LibScope l; s[i].obj->allocate(n, f); } s[i].model = M(n, f); lab(c, f == 0 ? "allocate(n,0)" : "allocate(n,fill)"); note("%d.allocate(%zu,%X); ", i, n, (unsigned)f); break; }
+                default: { if (!s[i].obj) continue; M v = value(r); touches = s[i].touched_by_move;   // assignment from a temporary (copy through an lvalue / move)
+                          bool cross = (s[i].model.size() < L) != (v.size() < L);
+                          if (r.flag()) move_assign_value(i, v); else copy_assign_value(i, v);
+                          if (cross) { pending = true; s[i].touched_by_move = true; }
+                          lab(c, "assign-from-temporary"); note("%d=tmp(%zu); ", i, v.size()); break; }
                 }
             } catch (...) {
                 return "step " + verif::unum(k) + ": unexpected " + verif::describe_current_exception();
@@ -188,12 +511,14 @@ template <class T> struct Pool {
     ~Pool() { for (int i = 0; i < NSLOT; i++) if (s[i].raw) { if (s[i].obj) { try { va::LibScope l; s[i].obj->~B(); } catch (...) {} } ::free(s[i].raw); } }
 };
 
-template <class T> int run_type(verif::Reader &r, Case &c, const char *tname) {
+template <class T> int run_type(verif::Reader &r, Case &c, const char *tname, bool ext) {
     Pool<T> p;
     p.want_log = c.want_text;
+    p.ext = ext;
     c.label(tname);
+    if (ext) c.label("extended-table");
     std::string why = p.run(r, c);
-    if (c.want_text) c.text = std::string("C05<") + tname + "> L=" + verif::unum(p.L) + "  " + p.log;
+    if (c.want_text) c.text = std::string("C05<") + tname + (ext ? ",ext" : "") + "> L=" + verif::unum(p.L) + "  " + p.log;
     va::reset();
     if (!why.empty()) return c.fail(why);
     return verif::CASE_OK;
@@ -201,20 +526,93 @@ template <class T> int run_type(verif::Reader &r, Case &c, const char *tname) {
 
 }  // namespace
 
+// leading byte: 0..3 = original operation table (char, char16_t, char32_t, wchar_t); 4..19 = extended table, type = (byte - 4) % 4
 int verif_case(const uint8_t *data, size_t size, Case &c) {
     verif::Reader r(data, size, c);
-    switch (r.range(0, 3)) {
-    case 0: return run_type<char>(r, c, "char");
-    case 1: return run_type<char16_t>(r, c, "char16_t");
-    case 2: return run_type<char32_t>(r, c, "char32_t");
-    default: return run_type<wchar_t>(r, c, "wchar_t");
+    unsigned m = (unsigned)r.range(0, 19);
+    bool ext = m >= 4;
+    switch (ext ? (m - 4) % 4 : m) {
+    case 0: return run_type<char>(r, c, "char", ext);
+    case 1: return run_type<char16_t>(r, c, "char16_t", ext);
+    case 2: return run_type<char32_t>(r, c, "char32_t", ext);
+    default: return run_type<wchar_t>(r, c, "wchar_t", ext);
     }
 }
 
-long verif_enumerate(int, int, int, verif::EnumReport &) { return 0; }
+// Directed cases: every (type, pre-state, action, length class, fill), every chain over 8x8 length classes, every 3-step shrink/grow method triple
+long verif_enumerate(int shard, int nshards, int tier, verif::EnumReport &r) {
+    (void)tier;
+    auto run = [&](const std::vector<uint8_t> &b) -> bool {
+        verif::set_current(b.data(), b.size());
+        Case c; c.want_text = r.want_sample() && (r.evaluations % 997) == 3;
+        int v = verif_case(b.data(), b.size(), c);
+        r.evaluations++; if (c.nontrivial) r.nontrivial++;
+        if (c.want_text && v == verif::CASE_OK) r.samples.push_back(c.text);
+        if (v == verif::CASE_VIOLATION) {
+            Case c2; c2.want_text = true; verif_case(b.data(), b.size(), c2);
+            r.failure = c2.failure.empty() ? c.failure : c2.failure; r.failing_case = c2.text; r.failing_bytes = b;
+            return false;
+        }
+        return true;
+    };
+    static const uint8_t fills[] = {0, 1, 2, 3, 4, 5, 6, 7, 0x41};   // 0, 1, 'x', 0x7F, 0x80, 0xFF, 0xFFFF, all-ones, 'A'
+    for (int kind = shard; kind < NKIND; kind += nshards)
+        for (uint8_t type = 0; type < 4; type++)
+            for (uint8_t act = 0; act < NACT; act++) {
+                bool uses_len = act <= 3 || act == 6 || act == 7 || act == 10 || act == 14, uses_fill = act == 0 || act == 2;
+                for (uint8_t shsel = 0; shsel < 4; shsel++)
+                    for (uint8_t lgsel = 0; lgsel < 4; lgsel++)
+                        for (uint8_t vlen = 0; vlen < (uses_len ? 8 : 1); vlen++)
+                            for (size_t fi = 0; fi < (uses_fill ? sizeof fills : 1); fi++) {
+                                // mode, nops-1, op, i, j, kind, action, short(len,style), long(len,style), value(len,style), fill, teardown order
+                                std::vector<uint8_t> b = {(uint8_t)(4 + type), 0, 29, 1, 0, (uint8_t)kind, act, shsel, 0x13, lgsel, 0x45, vlen, (uint8_t)(vlen == 3 ? 0x40 : 7), fills[fi], (uint8_t)(kind & 1)};
+                                if (!run(b)) return r.evaluations;
+                            }
+            }
+    for (int la = shard; la < 8; la += nshards)
+        for (uint8_t lb = 0; lb < 8; lb++)
+            for (uint8_t type = 0; type < 4; type++)
+                for (uint8_t same = 0; same < 2; same++) {
+                    // slot 0 = B(ptr,len a); slot 1 = B(ptr,len b); chain(0,1) or chain(0,0); read; teardown order
+                    std::vector<uint8_t> b = {(uint8_t)(4 + type), 3, 1, 0, 0, (uint8_t)la, 3, 1, 1, 0, lb, 0x11, 28, 0, (uint8_t)(same ? 0 : 1), 33, 1, 0, 5, 9, lb};
+                    if (!run(b)) return r.evaluations;
+                }
+    for (int m1 = shard; m1 < 4; m1 += nshards)
+        for (uint8_t m2 = 0; m2 < 6; m2++)
+            for (uint8_t m3 = 0; m3 < 4; m3++)
+                for (uint8_t type = 0; type < 4; type++)
+                    for (uint8_t lsel = 0; lsel < 4; lsel++) {
+                        std::vector<uint8_t> b = {(uint8_t)(4 + type), 0, 31, 2, 0, 0, (uint8_t)m1, lsel, 3};
+                        if (m1 == 3) b.push_back(0);
+                        b.insert(b.end(), {m2, (uint8_t)(lsel & 1), 9}); if (m2 == 3) b.push_back(0);
+                        b.insert(b.end(), {m3, (uint8_t)(3 - lsel), 21}); if (m3 == 3) b.push_back(0);
+                        if (!run(b)) return r.evaluations;
+                    }
+    for (int lit = shard; lit < NLIT; lit += nshards)
+        for (uint8_t form = 0; form < 3; form++)
+            for (uint8_t type = 0; type < 4; type++)
+                for (uint8_t pre = 0; pre < 9; pre++) {   // target: free slot, or a live one of each length class (move assignment of the temporary)
+                    std::vector<uint8_t> b = {(uint8_t)(4 + type), 3};
+                    if (pre) b.insert(b.end(), {1, 0, 0, (uint8_t)(pre - 1), 0x13}); else b[1] = 2;
+                    b.insert(b.end(), {20, 0, 0, (uint8_t)(form * NLIT + lit), 33, 0, 0, (uint8_t)lit, 3, 23, 0, 0, 5, pre});
+                    if (!run(b)) return r.evaluations;
+                }
+    if (shard == 0) {
+        r.exhausted.push_back("every (element type, pre-state of 18, action of 16, short length of 4, long length of 4, length class of 8, fill of {0,1,'x',0x7F,0x80,0xFF,0xFFFF,all-ones,'A'}) compound step, over all shards");
+        r.exhausted.push_back("every literal of the table x {ST_xxx_LITERAL macro, _stbuf operator, u8 _stbuf operator} x 4 element types, constructed into a free slot or assigned over a value of each of the 8 length classes, followed by reads and comparisons");
+        r.exhausted.push_back("the chain a=move(b); b=a; a=a; b=move(b) for all 8x8 length classes of a and b (and with a and b the same object), 4 element types");
+        r.exhausted.push_back("all 4x6x4 method triples of a long-short-long history (allocate+write, copy=, move=, allocate(n,0), clear, =null_t), 4 long lengths, 4 element types");
+    }
+    return r.evaluations;
+}
 
 void verif_corpus(std::vector<std::vector<uint8_t>> &out) {
     // 0=B(ptr,17) ; 2=B() ; 2 = move 0 ; ~2 ; read 0   (the shape of the repaired move-assignment defect)
     out.push_back({0, 4, 1, 0, 0, 5, 7, 0, 2, 0, 9, 2, 0, 15, 2, 0, 16, 0, 0});
     out.push_back({2, 10, 1, 0, 0, 4, 3, 5, 1, 0, 9, 0, 1, 12, 1, 0, 6, 1, 16, 1, 1});
+    // extended table: pre-state long-after-short, allocate(L-1, 0); literal with embedded NUL; chain; shrink/grow
+    out.push_back({4, 0, 29, 1, 0, 5, 0, 0, 0x13, 0, 0x45, 3, 7, 0, 0});
+    out.push_back({7, 2, 20, 0, 0, 2, 20, 1, 0, 18, 23, 0, 1, 9});
+    out.push_back({5, 3, 1, 0, 0, 5, 3, 1, 1, 0, 1, 0x11, 28, 0, 1, 33, 1, 0, 5, 9});
+    out.push_back({6, 0, 31, 2, 0, 1, 1, 2, 3, 4, 0, 9, 2, 1, 21, 5, 0, 0});
 }
